@@ -152,3 +152,22 @@ Proof.
   intros x y Hx Hy. cbn in Hx, Hy.
   destruct Hx as [<-|[<-|[<-|[<-|[]]]]], Hy as [<-|[<-|[<-|[<-|[]]]]]; cbn; intros E; try reflexivity; discriminate.
 Qed.
+
+(* non-vacuity for repeated entry values: five distinct nodes, three of them carrying the value [7]
+   (written from scratch, on top of p, and re-written after [8]); the value plays no role -- both
+   current entries read [7], in every order *)
+Example same_value_example :
+  let a  := mknode [] [7] in let p := mknode [] [5] in let a' := mknode [2] [7] in
+  let b  := mknode [1] [8] in let a'' := mknode [4] [7] in
+  let H := fun n => match children n, value n with
+                    | [], [7] => 1 | [], _ => 2 | [2], _ => 3 | [1], _ => 4 | _, _ => 5 end in
+  inj_on H [a; p; a'; b; a''] /\
+  mr_deliver H [a; p; a'; b; a''] = mr_deliver H [a''; b; a'; p; a] /\
+  mr_deliver H [a''; a'; a; b; p; a'] = mr_deliver H [a; p; a'; b; a''] /\
+  map (fun e => (fst e, value (snd e))) (mr_read (mr_deliver H [a''; b; a'; p; a])) = [(3, [7]); (5, [7])].
+Proof.
+  cbn zeta. split; [|vm_compute; auto].
+  intros x y Hx Hy. cbn in Hx, Hy.
+  destruct Hx as [<-|[<-|[<-|[<-|[<-|[]]]]]], Hy as [<-|[<-|[<-|[<-|[<-|[]]]]]]; cbn; intros E;
+    try reflexivity; discriminate.
+Qed.
